@@ -1,6 +1,7 @@
 package mon
 
 import (
+	"crypto/sha256"
 	"errors"
 	"fmt"
 	"os"
@@ -30,6 +31,8 @@ type IOEvent struct {
 	// Injected is set when the recorder made this call fail.
 	Injected string `json:"injected,omitempty"`
 	NotExist bool   `json:"notexist,omitempty"`
+	// Sum is the SHA-256 (hex, truncated) of the data of a write call.
+	Sum string `json:"sum,omitempty"`
 }
 
 // Fault describes an injected failure.
@@ -124,12 +127,18 @@ func (f *RecFS) WriteFile(path string, data []byte) error {
 		return ErrInjected
 	}
 	err := f.Inner.WriteFile(path, data)
-	ev := IOEvent{N: n, Op: "write", Path: path, Bytes: len(data)}
+	ev := IOEvent{N: n, Op: "write", Path: path, Bytes: len(data), Sum: SumOf(data)}
 	if err != nil {
 		ev.Err = err.Error()
 	}
 	f.add(ev)
 	return err
+}
+
+// SumOf is the digest stored in write events.
+func SumOf(b []byte) string {
+	h := sha256.Sum256(b)
+	return fmt.Sprintf("%x", h[:12])
 }
 
 func (f *RecFS) add(ev IOEvent) {
